@@ -2,6 +2,7 @@ package rules
 
 import (
 	"go/token"
+	"go/types"
 	"strings"
 
 	"golang.org/x/tools/go/ssa"
@@ -251,6 +252,28 @@ func init() {
 				_ = fr
 			}
 		}
+		// once the session's reservation is zeroed, the provider's counter must be decreased on every exit
+		nz := 0
+		ir.EachInstr(fail, func(in ssa.Instruction) {
+			st, ok := in.(*ssa.Store)
+			if !ok || !isZeroConst(st.Val) {
+				return
+			}
+			fa, ok := st.Addr.(*ssa.FieldAddr)
+			if !ok || ir.FieldKey(fa) != "protocol/lavasession.SingleConsumerSession.LatestRelayCu" {
+				return
+			}
+			nz++
+			res := c.MustPass(fail, st, IsCallTo(cswpK+"decreaseUsedComputeUnits"), func(*ssa.Return) bool { return true })
+			if res.OK {
+				c.OK("C28d/OnSessionFailure/reservation-zeroed=>provider-counter-decreased-on-every-exit", c.P.InstrPos(st), "every path from LatestRelayCu = 0 to a return calls decreaseUsedComputeUnits")
+			} else {
+				c.Fail("C28d/OnSessionFailure/reservation-zeroed=>provider-counter-decreased-on-every-exit", c.P.InstrPos(st), "a path from LatestRelayCu = 0 returns without decreaseUsedComputeUnits ("+res.Witness+"): the failed relay's reservation stays in the provider's used CU")
+			}
+		})
+		if nz == 0 {
+			c.Undecided("C28d: OnSessionFailure no longer zeroes LatestRelayCu")
+		}
 		cuSumInFail := false
 		for _, a := range c.fieldAccesses("protocol/lavasession.SingleConsumerSession.CuSum") {
 			if a.Kind == "write" && topName(a.Fn) == csmK+"OnSessionFailure" {
@@ -261,6 +284,117 @@ func init() {
 			c.Fail("C28d/OnSessionFailure/does-not-touch-CuSum", c.P.Pos(fail.Pos()), "a failed relay changes the cumulative CU")
 		} else {
 			c.OK("C28d/OnSessionFailure/does-not-touch-CuSum", c.P.Pos(fail.Pos()), "no store to CuSum")
+		}
+		c.Rule("C28e blocked providers: every address getValidProviderAddresses returns without error comes from the unblocked list — it is either the result of a selection call that was given getValidAddresses(...) as its candidate list, or a single address returned under slices.Contains(getValidAddresses(...), address); the blocked-provider list is consulted (tryGetConsumerSessionWithProviderFromBlockedProviderList) only under PairingListEmptyError.Is(err) of the normal selection")
+		if gvp := c.Fn(csmK + "getValidProviderAddresses"); gvp != nil {
+			valid := ""
+			for _, s := range c.CallsByName(gvp, false, csmK+"getValidAddresses") {
+				valid = ir.Desc(s.Instr.(ssa.Value))
+			}
+			if valid == "" {
+				c.Undecided("C28e: getValidProviderAddresses no longer obtains its candidates from getValidAddresses")
+			}
+			nret := 0
+			for _, r := range c.SuccessReturns(gvp) {
+				ret := r.Instr.(*ssa.Return)
+				// string sources of result #0
+				var bad []string
+				seen := map[ssa.Value]bool{}
+				var walk, single func(v ssa.Value)
+				walk = func(v ssa.Value) {
+					if v == nil || seen[v] {
+						return
+					}
+					seen[v] = true
+					switch x := v.(type) {
+					case *ssa.Const:
+						return
+					case *ssa.Phi:
+						for _, e := range x.Edges {
+							walk(e)
+						}
+					case *ssa.Slice:
+						walk(x.X)
+					case *ssa.Alloc:
+						if refs := x.Referrers(); refs != nil {
+							for _, rr := range *refs {
+								if ia, ok := rr.(*ssa.IndexAddr); ok {
+									walkStores(ia, walk)
+								}
+							}
+						}
+					case *ssa.Call:
+						n := ir.CalleeName(&x.Call)
+						if n == "builtin:append" {
+							for _, a := range x.Call.Args {
+								walk(a)
+							}
+							return
+						}
+						given := false
+						for _, a := range x.Call.Args {
+							if ir.Desc(a) == valid {
+								given = true
+							}
+						}
+						if !given {
+							bad = append(bad, "result of "+n+" which was not given the unblocked list")
+						}
+					case *ssa.Extract:
+						walk(x.Tuple)
+					case *ssa.UnOp:
+						if ia, ok := x.X.(*ssa.IndexAddr); ok && x.Op == token.MUL {
+							if _, isSlice := ia.X.Type().Underlying().(*types.Slice); isSlice {
+								walk(ia.X) // an element of a slice: where the slice came from
+								return
+							}
+						}
+						single(v)
+					default:
+						single(v)
+					}
+				}
+				single = func(v ssa.Value) {
+					{
+						// a single address: must have been found in the unblocked list
+						d := ir.Desc(v)
+						ok := false
+						for _, f := range ir.GuardFacts(ret) {
+							if strings.HasPrefix(f, "call(slices.Contains") && strings.Contains(f, "("+valid+","+d+")") {
+								ok = true
+							}
+						}
+						if !ok {
+							bad = append(bad, "address "+trunc(d, 80)+" returned without slices.Contains(getValidAddresses(...), it)")
+						}
+					}
+				}
+				walk(RetVal(ret, 0))
+				nret++
+				key := "C28e/getValidProviderAddresses/return@" + itoa(nret) + "/addresses-from-unblocked-list"
+				if len(bad) == 0 {
+					c.OK(key, c.P.InstrPos(ret), "")
+				} else {
+					c.Fail(key, c.P.InstrPos(ret), "a provider can be chosen although it is blocked in this epoch and unblocked providers exist: "+strings.Join(bad, "; "))
+				}
+			}
+			if nret < 3 {
+				c.Undecided("C28e: expected >=3 success returns in getValidProviderAddresses, found %d", nret)
+			}
+		}
+		if gsw := c.Fn(csmK + "getSessionWithProviderOrError"); gsw != nil {
+			sites := c.CallsByName(gsw, false, csmK+"tryGetConsumerSessionWithProviderFromBlockedProviderList")
+			if len(sites) == 0 {
+				c.Undecided("C28e: blocked-list fallback call not found in getSessionWithProviderOrError")
+			}
+			c.RequireGuards("C28e", sites, "blocked-list-fallback",
+				ErrNonNil(csmK+"getValidConsumerSessionsWithProvider"),
+				FactPrefix("pairing-list-empty", "call(cosmossdk.io/errors.Error.Is)(", "PairingListEmptyError"))
+			for _, s := range c.References(c.Fn(csmK + "tryGetConsumerSessionWithProviderFromBlockedProviderList")) {
+				if ir.FuncName(s.Fn) != csmK+"getSessionWithProviderOrError" {
+					c.Fail("C28e/blocked-list-fallback/only-caller", c.P.InstrPos(s.Instr), "the blocked-provider list is also consulted from "+ir.FuncName(s.Fn))
+				}
+			}
 		}
 		c.Note("C28/cross-reference/UsedComputeUnits-atomic-read", "-", "UsedComputeUnits is written under the provider mutex but read with atomic.LoadUint64 without it (atomicReadUsedComputeUnits): a data race by the Go memory model, harmless on 64-bit targets; not part of the property")
 		c.NotCovered("blocked-provider preference; accounting equalities over all schedules; QoS bookkeeping")
